@@ -13,25 +13,34 @@
           26 = C09_duration: templates_/clusters_waveforms_durations
           27 = C09_depths: get_depths
           3  = input outside the stated regime (harness bug)
-   The model is the term of Model.v instantiated with exact float tokens and Coq's primitive binary64
-   operations (Base/FloatTok.v): the same operation sequence as the code, correctly rounded. *)
-From Coq Require Import ZArith QArith List Bool.
-From PV Require Export Base.Tok Base.TokArith Base.FloatTok C09.Model C09.Spec.
+   The oracle is the term of Model.v instantiated with exact rationals (the instance the theorems are
+   about); observed binary64 values are converted exactly and must lie within 2^-48 relative of it. *)
+From Coq Require Import ZArith QArith Qabs List Bool.
+From PV Require Export Base.Tok Base.TokArith C09.Model C09.Spec.
 Import ListNotations.
 Open Scope Z_scope.
 
-(* ---------- the float-token instance of the number type ---------- *)
-Definition t_ofZ (z : Z) : tok := tz z.
-Definition lift2 (f : tok -> tok -> option tok) (a b : tok) : tok :=
-  match f a b with Some t => t | None => TNaN end.
-Definition t_mul := lift2 fmul_tok.
-Definition t_div := lift2 fdiv_tok.
-Definition t_add := lift2 fadd_tok.
-
-Definition amplitudes_true_T := amplitudes_true tok t_ofZ t_mul t_div.
-Definition mean_amps_T := mean_amps tok t_ofZ t_div.
-Definition waveform_durations_T := waveform_durations tok t_ofZ t_mul t_div.
-Definition get_depths_T := get_depths tok t_ofZ t_mul t_div t_add NBATCH TNaN.
+(* ---------- judging observed binary64 values against the exact model ---------- *)
+(* The oracle is the exact instance of the model (amplitudes_true_Q, ... : the terms the theorems are
+   about).  An observed float is accepted when it is within 2^-48 relative (about 32 ulp) of the exact
+   rational -- a handful of correctly rounded operations in any order, so that a harmless re-association
+   of the code is not an alarm -- and NaN must be NaN exactly.  All arithmetic below is exact. *)
+Definition tok_Q (t : tok) : option Q :=
+  match t with
+  | TNum m e => Some (if 0 <=? e then inject_Z (m * 2 ^ e) else (m # Z.to_pos (2 ^ (- e))))
+  | _ => None
+  end.
+Definition TOL : Q := inject_Z (2 ^ 48).
+Definition close (exact : QN) (o : tok) : bool :=
+  match exact, o with
+  | None, TNaN => true
+  | Some q, TNum _ _ =>
+      match tok_Q o with
+      | Some x => Qle_bool (Qabs (x - q) * TOL) (Qabs q)
+      | None => false
+      end
+  | _, _ => false
+  end.
 
 (* ---------- cases ---------- *)
 Record inp := mkinp {
@@ -54,8 +63,10 @@ Record obs := mkobs {
   o_dur_t : option (list tok); o_dur_c : option (list tok);
   o_depths : option (option (list tok))
 }.
-Inductive input := InModel (i : inp) | InBad.
-Inductive observed := ObsAll (o : obs) | ObsCrash.
+(* InBig: a dataset of n spikes (n around and above the batch size 50000 of get_depths) that repeats the
+   K = length data spikes given here (features, templates) periodically; only get_depths is observed. *)
+Inductive input := InModel (i : inp) | InBig (pos : mat) (data : list mat) (cols : mat) (st : list Z) (n : Z) | InBad.
+Inductive observed := ObsAll (o : obs) | ObsBig (o : option (option (list tok))) | ObsCrash.
 Record case := { cid : Z; cin : input; cobs : observed }.
 
 Definition flag (code : Z) (ok : bool) : list Z := if ok then [] else [code].
@@ -65,7 +76,8 @@ Fixpoint all2b {A B} (f : A -> B -> bool) (a : list A) (b : list B) : bool :=
   | x :: a', y :: b' => f x y && all2b f a' b'
   | _, _ => false
   end.
-Definition t3_eqb (a b : list (list (list tok))) : bool := all2b (all2b tl_eqb) a b.
+Definition closel := all2b close.
+Definition close3 (a : list (list (list QN))) (b : list (list (list tok))) : bool := all2b (all2b closel) a b.
 Definition oeq {A B} (eqb : A -> B -> bool) (m : option A) (o : option B) : bool :=
   match m, o with Some x, Some y => eqb x y | _, _ => false end.
 
@@ -120,11 +132,11 @@ Definition amp_regime (ai : amp_in) : bool :=
 
 Definition depth_regime (di : depth_in) : bool :=
   wf_depth di && (di_nspikes di <? NBATCH) &&
-  forallb (forallb (small B24)) (di_pos di) &&
+  forallb (forallb (fun y => (0 <=? y) && small B24 y)) (di_pos di) &&
   match di_feat di with
   | None => true
   | Some (data, cols) =>
-      forallb (fun s => forallb (forallb (fun x => small 4096 x)) s && is_pow2_or_0 (zsum (pos_sq s))) data
+      forallb (fun s => forallb (forallb (fun x => small 4096 x)) s) data
   end.
 
 Definition mk_ai (i : inp) (clusters : bool) : amp_in :=
@@ -143,34 +155,64 @@ Definition regime (i : inp) : bool :=
 Definition zl_eq (a b : list Z) : bool := zl_eqb a b.
 
 Definition check_amp (ai : amp_in) (factor : tok) (o : option ampobs) : list Z :=
-  match amplitudes_true_T ai factor, o with
+  match amplitudes_true_Q ai (tok_Q factor), o with
   | Some m, Some ob =>
-      let g21 := tl_eqb (ao_spike m) (a_spike ob) in
-      let g22 := tl_eqb (ao_tamps m) (a_tamps ob) && nan_iff_empty_b ai (map is_finite (a_tamps ob)) in
-      let g23 := t3_eqb (ao_phys m) (a_phys ob) && peak_rel_b ai ob in
+      let g21 := closel (ao_spike m) (a_spike ob) in
+      let g22 := closel (ao_tamps m) (a_tamps ob) && nan_iff_empty_b ai (map is_finite (a_tamps ob)) in
+      let g23 := close3 (ao_phys m) (a_phys ob) && peak_rel_b ai ob in
       flag 1 (g21 && g22 && g23) ++ flag 21 g21 ++ flag 22 g22 ++ flag 23 g23
   | Some _, None => [1; 20; 21; 22; 23]
   | None, _ => [3]
+  end.
+
+(* every observed value against the value of its position in the repeated pattern *)
+Fixpoint cyc (pat cur : list QN) (o : list tok) : bool :=
+  match o with
+  | [] => true
+  | x :: r => match cur with
+              | p :: cur' => close p x && cyc pat cur' r
+              | [] => match pat with
+                      | p :: cur' => close p x && cyc pat cur' r
+                      | [] => false
+                      end
+              end
+  end.
+
+(* By C09_depths (proved for every batch size) get_depths returns, for spike k, a value that depends
+   only on the features and the template of spike k: the periodic dataset is therefore judged spike by
+   spike against the model evaluated on one period. *)
+Definition check_big (pos : mat) (data : list mat) (cols : mat) (st : list Z) (n : Z)
+                     (o : option (option (list tok))) : list Z :=
+  let di := mk_depth_in (zlen data) (Some (data, cols)) st pos in
+  if negb (depth_regime di && (1 <=? zlen data) && (1 <=? n)) then [3] else
+  match get_depths_Q NBATCH di, o with
+  | Some (Some pat), Some (Some l) => let ok := (zlen l =? n) && cyc pat pat l in flag 1 ok ++ flag 27 ok
+  | Some (Some _), _ => [1; 20; 27]
+  | _, _ => [3]
   end.
 
 Definition check (c : case) : list Z :=
   match cin c, cobs c with
   | InBad, _ => [1; 20]
   | InModel _, ObsCrash => [1; 20]
+  | InBig _ _ _ _ _, ObsCrash => [1; 20]
+  | InBig pos data cols st n, ObsBig o => check_big pos data cols st n o
+  | InBig _ _ _ _ _, ObsAll _ => [3]
+  | InModel _, ObsBig _ => [3]
   | InModel i, ObsAll o =>
       if negb (regime i) then [3] else
       let nc := length (i_wmi i) in
-      let g24 := oeq tl_eqb (mean_amps_T (i_st i) (i_amps i)) (o_mean_t o) &&
-                 oeq tl_eqb (mean_amps_T (i_sc i) (i_amps i)) (o_mean_c o) in
+      let g24 := oeq closel (mean_amps_Q (i_st i) (i_amps i)) (o_mean_t o) &&
+                 oeq closel (mean_amps_Q (i_sc i) (i_amps i)) (o_mean_c o) in
       let g25 := oeq zl_eq (channels nc (i_tdata i)) (o_chan_t o) &&
                  oeq zl_eq (channels nc (i_cdata i)) (o_chan_c o) &&
                  oeq zl_eq (templates_probes nc (i_tdata i) (i_probes i)) (o_probes_t o) &&
                  match o_chan_t o with Some l => peak_channels_b nc (i_tdata i) l | None => false end &&
                  match o_chan_c o with Some l => peak_channels_b nc (i_cdata i) l | None => false end in
-      let g26 := oeq tl_eqb (waveform_durations_T nc (i_tdata i) (i_rate i)) (o_dur_t o) &&
-                 oeq tl_eqb (waveform_durations_T nc (i_cdata i) (i_rate i)) (o_dur_c o) in
-      let g27 := match get_depths_T (mk_di i), o_depths o with
-                 | Some (Some l), Some (Some l') => tl_eqb l l'
+      let g26 := oeq closel (waveform_durations_Q nc (i_tdata i) (tok_Q (i_rate i))) (o_dur_t o) &&
+                 oeq closel (waveform_durations_Q nc (i_cdata i) (tok_Q (i_rate i))) (o_dur_c o) in
+      let g27 := match get_depths_Q NBATCH (mk_di i), o_depths o with
+                 | Some (Some l), Some (Some l') => closel l l'
                  | Some None, Some None => true
                  | _, _ => false
                  end in
